@@ -462,82 +462,80 @@ func reflectGuardedFlow(fn *ssa.Function, s reflectSite, subjects []ssa.Value, v
 	}
 	fl := &boolFlow{fn: fn, entry: false}
 	fl.edge = func(b *ssa.BasicBlock, i int) bool {
-		v, trueIdx, ok := ifCond(b)
-		if !ok {
-			return false
-		}
-		onTrue := i == trueIdx
-		switch x := v.(type) {
-		case *ssa.BinOp:
-			if x.Op != token.EQL && x.Op != token.NEQ {
-				return false
-			}
-			// kind test
-			for _, pr := range [][2]ssa.Value{{x.X, x.Y}, {x.Y, x.X}} {
-				sub, ok := kindCallOn(pr[0])
-				if !ok {
-					continue
+		return anyEdgeFact(b, i, func(v ssa.Value, trueIdx int) bool {
+			onTrue := i == trueIdx
+			switch x := v.(type) {
+			case *ssa.BinOp:
+				if x.Op != token.EQL && x.Op != token.NEQ {
+					return false
 				}
-				c, ok := pr[1].(*ssa.Const)
-				if !ok || c.Value == nil || c.Value.Kind() != constant.Int {
-					continue
-				}
-				k, _ := constant.Int64Val(c.Value)
-				match := false
-				for _, sj := range subjects {
-					if sameReflect(sub, sj) {
-						match = true
-					}
-					// a kind test of v.Type() speaks for v
-					if tv, ok := typeOfValue(unspill(sub)); ok && sameReflect(tv, sj) {
-						match = true
-					}
-				}
-				if !match {
-					continue
-				}
-				isEq := (x.Op == token.EQL) == onTrue // on this edge kind == k
-				if isEq {
-					return s.legal[k]
-				}
-				// kind != k on this edge: useful only if that leaves legal kinds only — i.e. never,
-				// except for validity: kind != Invalid
-				return k == 0 && len(s.legal) == len(allValidKinds)
-			}
-			// x == nil for the ValueOf argument
-			if valueOfArg != nil {
+				// kind test
 				for _, pr := range [][2]ssa.Value{{x.X, x.Y}, {x.Y, x.X}} {
-					if isNilConst(pr[1]) && sameValue(pr[0], valueOfArg) {
-						isNil := (x.Op == token.EQL) == onTrue
-						return !isNil
+					sub, ok := kindCallOn(pr[0])
+					if !ok {
+						continue
+					}
+					c, ok := pr[1].(*ssa.Const)
+					if !ok || c.Value == nil || c.Value.Kind() != constant.Int {
+						continue
+					}
+					k, _ := constant.Int64Val(c.Value)
+					match := false
+					for _, sj := range subjects {
+						if sameReflect(sub, sj) {
+							match = true
+						}
+						// a kind test of v.Type() speaks for v
+						if tv, ok := typeOfValue(unspill(sub)); ok && sameReflect(tv, sj) {
+							match = true
+						}
+					}
+					if !match {
+						continue
+					}
+					isEq := (x.Op == token.EQL) == onTrue // on this edge kind == k
+					if isEq {
+						return s.legal[k]
+					}
+					// kind != k on this edge: useful only if that leaves legal kinds only — i.e. never,
+					// except for validity: kind != Invalid
+					return k == 0 && len(s.legal) == len(allValidKinds)
+				}
+				// x == nil for the ValueOf argument
+				if valueOfArg != nil {
+					for _, pr := range [][2]ssa.Value{{x.X, x.Y}, {x.Y, x.X}} {
+						if isNilConst(pr[1]) && sameValue(pr[0], valueOfArg) {
+							isNil := (x.Op == token.EQL) == onTrue
+							return !isNil
+						}
+					}
+				}
+			case *ssa.Call:
+				// x.IsNil() false ⇒ x.Elem() is valid
+				if f := x.Call.StaticCallee(); f != nil && f.String() == "(reflect.Value).IsNil" && elemOf != nil && len(s.legal) == len(allValidKinds) {
+					if sameReflect(x.Call.Args[0], elemOf) {
+						return !onTrue
+					}
+				}
+				// v.IsValid()
+				if f := x.Call.StaticCallee(); f != nil && f.String() == "(reflect.Value).IsValid" && len(s.legal) == len(allValidKinds) {
+					for _, sj := range subjects {
+						if sameReflect(x.Call.Args[0], sj) {
+							return onTrue
+						}
+					}
+				}
+				// v.CanInterface() implies validity
+				if f := x.Call.StaticCallee(); f != nil && f.String() == "(reflect.Value).CanInterface" && len(s.legal) == len(allValidKinds) {
+					for _, sj := range subjects {
+						if sameReflect(x.Call.Args[0], sj) {
+							return onTrue
+						}
 					}
 				}
 			}
-		case *ssa.Call:
-			// x.IsNil() false ⇒ x.Elem() is valid
-			if f := x.Call.StaticCallee(); f != nil && f.String() == "(reflect.Value).IsNil" && elemOf != nil && len(s.legal) == len(allValidKinds) {
-				if sameReflect(x.Call.Args[0], elemOf) {
-					return !onTrue
-				}
-			}
-			// v.IsValid()
-			if f := x.Call.StaticCallee(); f != nil && f.String() == "(reflect.Value).IsValid" && len(s.legal) == len(allValidKinds) {
-				for _, sj := range subjects {
-					if sameReflect(x.Call.Args[0], sj) {
-						return onTrue
-					}
-				}
-			}
-			// v.CanInterface() implies validity
-			if f := x.Call.StaticCallee(); f != nil && f.String() == "(reflect.Value).CanInterface" && len(s.legal) == len(allValidKinds) {
-				for _, sj := range subjects {
-					if sameReflect(x.Call.Args[0], sj) {
-						return onTrue
-					}
-				}
-			}
-		}
-		return false
+			return false
+		})
 	}
 	fl.solve()
 	if fl.at(s.in) {
